@@ -113,6 +113,7 @@ def generate(req):
         meta["indexes"]["ix_plain_expr"] = {"where": None, "exprs": ["c + 1"]}
         c.execute("create index ix_plain_rt on t_plain(b COLLATE RTRIM, a)")
         c.execute("create unique index ix_plain_u on t_plain(a, b, c, d)")
+        c.execute("create index ix_plain_l3 on t_plain(c, b COLLATE NOCASE, a)")
         rows = []
         for i in range(n):
             rows.append((g.any_value(), g.text_value() if r.random() > 0.05 else None,
